@@ -10,7 +10,8 @@ reader of the session machine (Model/Session.lean, whose `Ev.data fs` delivers c
 Vocabulary (Model/Refine.lean): `tokens P buf` = the frames the reader loop cuts off `buf` (one `deserialize()` per round, as
 `Framing.stepObs`), classified `msg m | hb | logout | bad`, up to the first `logout` / `bad`, + the bytes left + "stopped";
 `carried P buf` = its `msg`s = the decodable application messages carried by `buf`; `stable P st buf` = the protocol's stability
-test `st` holds at every cut point of `buf` (SoupBinTCP: always; FIX: the computed frame length is never negative);
+test `st` holds at every cut point of `buf` (SoupBinTCP: always; FIX: always since the repair 658ee1f — before it, iff the computed
+frame length was never negative: `Witness/C04Bytes.lean`);
 `brun P num cfg evs` = ONE byte-level history `evs` (`bytes seg` = `data_received(seg)`, every other session event as it is)
 driving BOTH existing machines: the C03 reader gets `data seg` / `tick` (a `run R` that finds the reader task at the top of its
 loop), the session machine gets `Ev.data (newFrames … seg)` (the frames `seg` completes) / the event itself.  `num : μ → Nat`
@@ -57,24 +58,21 @@ theorem C04_bytes_soup_tokens_append (a b : Bytes) :
     tokens soupProto (a ++ b) = (tokens soupProto a).extend soupProto b :=
   tokens_append soupFramer a b (soup_stable _)
 
-/-- **FIX (reader with the dictionary dispatch): for every byte string whose computed frame lengths are non-negative**
-    (`stable … fixSt`).  What can differ otherwise, and why: `bytes.find` results, the BodyLength text and the computed length
-    `n` never change when bytes are appended, but the frame is `buf[:n]` and for `n < 0` that counts from the END of whatever has
-    arrived — see `Witness/C04Bytes.lean`. -/
-theorem C04_bytes_fix_tokens_append (known : Bytes → Bool) (decode : Bytes → Except Err Unit) (hk : known [] = false)
-    (a b : Bytes) (h : stable (fixProtoD known decode) fixSt (a ++ b) = true) :
+/-- **FIX (reader with the dictionary dispatch, any dictionary, any field-level decoder): for EVERY byte string** — since the
+    repair 658ee1f (`if body_length < 0: raise ValueError`).  `bytes.find` results, the BodyLength text and the computed length
+    `n` never change when bytes are appended; the frame is `buf[:n]`, and `n ≥ 8` wherever a frame is cut.  (Before the repair
+    `n < 0` counted from the END of whatever had arrived: `Witness/C04Bytes.lean`.) -/
+theorem C04_bytes_fix_tokens_append (known : Bytes → Bool) (decode : Bytes → Except Err Unit) (a b : Bytes) :
     tokens (fixProtoD known decode) (a ++ b) = (tokens (fixProtoD known decode) a).extend (fixProtoD known decode) b :=
-  tokens_append (fixFramer known decode hk) a b h
+  tokens_append (fixFramer known decode) a b (fix_stable _ _)
 
-/-- the FIX facts behind it: wherever the computed frame length is non-negative (`fixSt buf`), a frame that could be cut off,
-    or an exception that was raised, is not changed by later bytes; and a negative length stays negative -/
+/-- the FIX facts behind it, for every buffer: a frame that could be cut off, or an exception that was raised, is not changed
+    by later bytes; and a cut frame is never empty (whatever the dictionary) -/
 theorem C04_bytes_fix_deser_stable (known : Bytes → Bool) (decode : Bytes → Except Err Unit) (buf more : Bytes) :
-    (fixSt buf = true → ∀ f r, Framing.fixDeserD known decode buf = .ok (some (f, r)) →
-        Framing.fixDeserD known decode (buf ++ more) = .ok (some (f, r ++ more))) ∧
-    (fixSt buf = true → ∀ e, Framing.fixDeserD known decode buf = .error e →
-        Framing.fixDeserD known decode (buf ++ more) = .error e) ∧
-    (fixSt (buf ++ more) = true → fixSt buf = true) :=
-  ⟨fun hst _ _ h => fixDeserD_mono more hst h, fun hst _ h => fixDeserD_err_mono more hst h, fixSt_prefix⟩
+    (∀ f r, Framing.fixDeserD known decode buf = .ok (some (f, r)) →
+        Framing.fixDeserD known decode (buf ++ more) = .ok (some (f, r ++ more)) ∧ f ≠ [] ∧ r.length < buf.length) ∧
+    (∀ e, Framing.fixDeserD known decode buf = .error e → Framing.fixDeserD known decode (buf ++ more) = .error e) :=
+  ⟨fun _ _ h => ⟨fixDeserD_mono more h, fixDeser_consumes (fixDeserD_inv h).1⟩, fun _ h => fixDeserD_err_mono more h⟩
 
 /-- **Well-formed streams (exactly C03's hypotheses, `FrameSpec`: a complete well-formed frame followed by anything is cut off
     exactly, a proper prefix asks for more bytes, frames are non-empty — `soupSpec` for `wfPkt`, `fixSpec` / `fixSpecD` for
@@ -89,12 +87,18 @@ theorem C04_bytes_carried_wf {P : Proto μ} {enc : μ → Bytes} {wf : μ → Pr
     (ms : List μ) (hwf : ∀ m ∈ ms, wf m) : carried P (stream enc ms) = expected P ms :=
   carried_stream S hC ms hwf
 
-/-- every stream of well-formed FIX frames that the dictionary and the field decoder accept is stable: the hypothesis of the FIX
-    theorems below holds on all the streams C03 speaks about -/
-theorem C04_bytes_fix_wf_stable (known : Bytes → Bool) (decode : Bytes → Except Err Unit) (hk : known [] = false)
-    (fs : List Bytes) (hwf : ∀ f ∈ fs, FixWf.wfD known decode f) :
-    stable (fixProtoD known decode) fixSt (stream (fun f => f) fs) = true :=
-  FixWf.fix_wf_stable known decode hk fs hwf
+/-- FIX, well-formed frames the dictionary accepts (`FixWf.wfD`: C03's `wfFixFrame` + known type + decodable): the messages
+    carried by their concatenation are C03's `expected` -/
+theorem C04_bytes_fix_carried_wf (known : Bytes → Bool) (decode : Bytes → Except Err Unit) (fs : List Bytes)
+    (hwf : ∀ f ∈ fs, FixWf.wfD known decode f) :
+    carried (fixProtoD known decode) (stream (fun f => f) fs) = expected (fixProtoD known decode) fs :=
+  carried_stream (FixWf.fixSpecD known decode) (fixProtoD_consuming' known decode) fs hwf
+
+/-- SoupBinTCP, well-formed packets (`wfPkt`, C12/C03): the messages carried by their byte stream (the documented layouts) are the
+    non-heartbeats before the first logout — C03's `expected` -/
+theorem C04_bytes_soup_carried_wf (ms : List Soup.Pkt) (hwf : ∀ p ∈ ms, Props.C12.wfPkt p = true) :
+    carried soupProto (stream Spec.SoupLayout.layout ms) = expected soupProto ms :=
+  carried_stream Framing.soupSpec Framing.soupProto_consuming ms hwf
 
 /-! ## 3. Simulation: byte-level reader vs. token-level reader -/
 
@@ -232,20 +236,34 @@ theorem C04_bytes_soup_prefix_partial (num : Soup.Pkt → Nat) (cfg : Cfg) (evs 
     delivered (brun soupProto num cfg evs).s.trace <+: (carried soupProto (bytesOf evs)).map num :=
   C04_bytes_prefix_partial soupFramer num cfg evs (soup_stable _) hl
 
-/-- **FIX: every byte stream whose computed frame lengths are non-negative**, any dictionary without the empty message type,
-    any field-level decoder -/
-theorem C04_bytes_fix_sublist (known : Bytes → Bool) (decode : Bytes → Except Err Unit) (hk : known [] = false)
-    (num : Bytes → Nat) (cfg : Cfg) (evs : List BEv) (hs : stable (fixProtoD known decode) fixSt (bytesOf evs) = true) :
+/-- **FIX: every byte stream too** (since the repair 658ee1f), any dictionary, any field-level decoder -/
+theorem C04_bytes_fix_sublist (known : Bytes → Bool) (decode : Bytes → Except Err Unit) (num : Bytes → Nat) (cfg : Cfg)
+    (evs : List BEv) :
     List.Sublist (delivered (brun (fixProtoD known decode) num cfg evs).s.trace)
       ((carried (fixProtoD known decode) (bytesOf evs)).map num) :=
-  C04_bytes_sublist (fixFramer known decode hk) num cfg evs hs
+  C04_bytes_sublist (fixFramer known decode) num cfg evs (fix_stable _ _)
 
-theorem C04_bytes_fix_prefix_partial (known : Bytes → Bool) (decode : Bytes → Except Err Unit) (hk : known [] = false)
-    (num : Bytes → Nat) (cfg : Cfg) (evs : List BEv) (hs : stable (fixProtoD known decode) fixSt (bytesOf evs) = true)
-    (hl : (brun (fixProtoD known decode) num cfg evs).s.lost = []) :
+theorem C04_bytes_fix_prefix_partial (known : Bytes → Bool) (decode : Bytes → Except Err Unit) (num : Bytes → Nat) (cfg : Cfg)
+    (evs : List BEv) (hl : (brun (fixProtoD known decode) num cfg evs).s.lost = []) :
     delivered (brun (fixProtoD known decode) num cfg evs).s.trace <+:
       (carried (fixProtoD known decode) (bytesOf evs)).map num :=
-  C04_bytes_prefix_partial (fixFramer known decode hk) num cfg evs hs hl
+  C04_bytes_prefix_partial (fixFramer known decode) num cfg evs (fix_stable _ _) hl
+
+/-- the FIX refinement itself, unconditionally: related machines, wire = tokens of all bytes, reader output ≤ carried -/
+theorem C04_bytes_fix_related (known : Bytes → Bool) (decode : Bytes → Except Err Unit) (num : Bytes → Nat) (cfg : Cfg)
+    (evs : List BEv) :
+    Rel (fixProtoD known decode) num (brun (fixProtoD known decode) num cfg evs).r (brun (fixProtoD known decode) num cfg evs).s ∧
+    (brun (fixProtoD known decode) num cfg evs).s.wire = (tokens (fixProtoD known decode) (bytesOf evs)).frames num ∧
+    msgsOf (brun (fixProtoD known decode) num cfg evs).s.wire = (carried (fixProtoD known decode) (bytesOf evs)).map num ∧
+    (brun (fixProtoD known decode) num cfg evs).r.out <+: carried (fixProtoD known decode) (bytesOf evs) :=
+  C04_bytes_related (fixFramer known decode) num cfg evs (fix_stable _ _)
+
+theorem C04_bytes_soup_related (num : Soup.Pkt → Nat) (cfg : Cfg) (evs : List BEv) :
+    Rel soupProto num (brun soupProto num cfg evs).r (brun soupProto num cfg evs).s ∧
+    (brun soupProto num cfg evs).s.wire = (tokens soupProto (bytesOf evs)).frames num ∧
+    msgsOf (brun soupProto num cfg evs).s.wire = (carried soupProto (bytesOf evs)).map num ∧
+    (brun soupProto num cfg evs).r.out <+: carried soupProto (bytesOf evs) :=
+  C04_bytes_related soupFramer num cfg evs (soup_stable _)
 
 /-! ## 5. Non-vacuity: concrete byte strings, tokens, histories and related states -/
 
@@ -293,13 +311,10 @@ private def exDec : Bytes → Except Err Unit := fun _ => .ok ()
 private def exPD : Proto Bytes := fixProtoD exKnown exDec
 /-- an injective numbering of byte strings with bytes below 256 -/
 private def numF : Bytes → Nat := fun f => f.foldl (fun a b => a * 256 + b) 1
-example : exKnown [] = false := by decide
 example : FixWf.wfD exKnown exDec exHb ∧ FixWf.wfD exKnown exDec exOrd ∧ FixWf.wfD exKnown exDec exOut := by
   refine ⟨⟨?_, ?_, ?_⟩, ⟨?_, ?_, ?_⟩, ⟨?_, ?_, ?_⟩⟩ <;> decide
 set_option maxRecDepth 8000 in
 example : tokens exPD (exHb ++ exOrd ++ exOut ++ exOrd) = ⟨[.hb, .msg exOrd, .logout], exOrd, true⟩ := by decide
-set_option maxRecDepth 8000 in
-example : stable exPD fixSt (exHb ++ exOrd ++ exOut ++ exOrd) = true := by decide
 -- cut between `9=13` and its SOH: the heartbeat is a token, the partial order waits; continued on arrival
 set_option maxRecDepth 8000 in
 example : tokens exPD (exHb ++ exOrd.take 14) = ⟨[.hb], exOrd.take 14, false⟩ := by decide
@@ -314,7 +329,8 @@ example : (traces exPD numF cfg0 {} exEvsF).1 =
 set_option maxRecDepth 8000 in
 example : (brun exPD numF cfg0 exEvsF).s.closed = true ∧ delivered (brun exPD numF cfg0 exEvsF).s.trace = [numF exOrd] ∧
     (brun exPD numF cfg0 exEvsF).r.out = [exOrd] ∧ (brun exPD numF cfg0 exEvsF).r.stopped = true := by decide
--- the stability hypothesis is not vacuous: a negative BodyLength (`9=-25`) fails the test
-example : fixSt [56, 61, 70, 73, 88, 46, 52, 46, 52, 1, 57, 61, 45, 50, 53, 1, 51, 53, 61, 48, 1] = false := by decide
+-- hostile: a negative BodyLength (`8=FIX.4.4|9=-25|35=0|`) is a malformed frame whatever follows and whenever it is polled
+example : tokens exPD [56, 61, 70, 73, 88, 46, 52, 46, 52, 1, 57, 61, 45, 50, 53, 1, 51, 53, 61, 48, 1] =
+    ⟨[.bad], [56, 61, 70, 73, 88, 46, 52, 46, 52, 1, 57, 61, 45, 50, 53, 1, 51, 53, 61, 48, 1], true⟩ := by decide
 
 end NasdaqModel.Props.C04Bytes
